@@ -10,8 +10,8 @@ import (
 	"golang.org/x/tools/go/ssa"
 )
 
-// Instrs calls f for every instruction of fn (not of nested anonymous functions).
-func Instrs(fn *ssa.Function, f func(ssa.Instruction)) {
+// InstrsOwn calls f for every instruction of fn itself (not of nested anonymous functions, not of absorbed helpers).
+func InstrsOwn(fn *ssa.Function, f func(ssa.Instruction)) {
 	for _, b := range fn.Blocks {
 		for _, in := range b.Instrs {
 			f(in)
@@ -19,11 +19,48 @@ func Instrs(fn *ssa.Function, f func(ssa.Instruction)) {
 	}
 }
 
+// Instrs calls f for every instruction of fn (not of nested anonymous functions) and, right after a call of an absorbed
+// helper (see absorb.go), for the helper's instructions; each helper body is visited once.
+func Instrs(fn *ssa.Function, f func(ssa.Instruction)) {
+	seen := map[*ssa.Function]bool{fn: true}
+	var walk func(g *ssa.Function, d int)
+	walk = func(g *ssa.Function, d int) {
+		for _, b := range g.Blocks {
+			for _, in := range b.Instrs {
+				f(in)
+				if d < absorbDepth {
+					if h := AbsorbedCallee(in); h != nil && !seen[h] {
+						seen[h] = true
+						walk(h, d+1)
+					}
+				}
+			}
+		}
+	}
+	walk(fn, 0)
+}
+
 // WithAnon returns fn and all anonymous functions nested in it (transitively).
 func WithAnon(fn *ssa.Function) []*ssa.Function {
 	out := []*ssa.Function{fn}
 	for _, a := range fn.AnonFuncs {
 		out = append(out, WithAnon(a)...)
+	}
+	// closures created inside helpers that are analysed as part of fn belong to fn's family too
+	if fn.Parent() == nil || true {
+		for _, h := range AbsorbedInto(fn) {
+			for _, a := range h.AnonFuncs {
+				out = append(out, withAnonPlain(a)...)
+			}
+		}
+	}
+	return out
+}
+
+func withAnonPlain(fn *ssa.Function) []*ssa.Function {
+	out := []*ssa.Function{fn}
+	for _, a := range fn.AnonFuncs {
+		out = append(out, withAnonPlain(a)...)
 	}
 	return out
 }
@@ -144,6 +181,9 @@ func IsNilConst(v ssa.Value) bool {
 func AccessPath(v ssa.Value) string {
 	switch x := v.(type) {
 	case *ssa.Parameter:
+		if r := Resolve(x); r != ssa.Value(x) {
+			return AccessPath(r) // parameter of an absorbed single-site helper: name the caller's object
+		}
 		return x.Name()
 	case *ssa.FreeVar:
 		if b := BindingOf(x); b != nil {
@@ -267,7 +307,7 @@ func ClosureBindings(anon *ssa.Function) (mk *ssa.MakeClosure, bind map[*ssa.Fre
 	if parent == nil {
 		return nil, nil
 	}
-	Instrs(parent, func(in ssa.Instruction) {
+	InstrsOwn(parent, func(in ssa.Instruction) {
 		if m, ok := in.(*ssa.MakeClosure); ok && m.Fn == anon {
 			mk = m
 		}
@@ -300,7 +340,7 @@ func FuncArgClosure(v ssa.Value) *ssa.Function {
 // ReturnsOf lists the Return instructions of fn.
 func ReturnsOf(fn *ssa.Function) []*ssa.Return {
 	var out []*ssa.Return
-	Instrs(fn, func(in ssa.Instruction) {
+	InstrsOwn(fn, func(in ssa.Instruction) {
 		if r, ok := in.(*ssa.Return); ok {
 			out = append(out, r)
 		}
@@ -320,13 +360,66 @@ func IndexIn(in ssa.Instruction) int {
 
 // Dominates reports whether instruction a is executed before b on every path reaching b (same function).
 func Dominates(a, b ssa.Instruction) bool {
-	if a.Parent() != b.Parent() {
+	return dominatesD(a, b, 0)
+}
+
+func dominatesD(a, b ssa.Instruction, d int) bool {
+	fa, fb := a.Parent(), b.Parent()
+	if fa == fb {
+		if a.Block() == b.Block() {
+			return IndexIn(a) < IndexIn(b)
+		}
+		return a.Block().Dominates(b.Block())
+	}
+	if d > absorbDepth {
 		return false
 	}
-	if a.Block() == b.Block() {
-		return IndexIn(a) < IndexIn(b)
+	// b lies in an absorbed helper: a dominates b when it dominates every call of the helper (or is that call)
+	if sites := SitesOf(fb); len(sites) > 0 && len(CallChains(fa, fb)) > 0 {
+		for _, s := range sites {
+			si := s.(ssa.Instruction)
+			if len(CallChains(fa, si.Parent())) == 0 {
+				continue // a call from elsewhere: not a path of fa's region
+			}
+			if si != a && !dominatesD(a, si, d+1) {
+				return false
+			}
+		}
+		return true
 	}
-	return a.Block().Dominates(b.Block())
+	// a lies in an absorbed helper of fb's region: it must run on every pass through the helper, and a call of the helper must dominate b
+	if sites := SitesOf(fa); len(sites) > 0 && len(CallChains(fb, fa)) > 0 {
+		if !mustExecute(a) {
+			return false
+		}
+		for _, s := range sites {
+			si := s.(ssa.Instruction)
+			if _, isDefer := si.(*ssa.Defer); isDefer {
+				continue
+			}
+			if len(CallChains(fb, si.Parent())) == 0 {
+				continue
+			}
+			if si == b || dominatesD(si, b, d+1) {
+				return true
+			}
+		}
+	}
+	return false
+}
+
+// mustExecute: every path from the entry of a's function to one of its returns passes through a.
+func mustExecute(a ssa.Instruction) bool {
+	fn := a.Parent()
+	for _, r := range ReturnsOf(fn) {
+		if r == a {
+			continue
+		}
+		if !(a.Block() == r.Block() && IndexIn(a) < IndexIn(r)) && !a.Block().Dominates(r.Block()) {
+			return false
+		}
+	}
+	return true
 }
 
 // ErrorType is the predeclared error type.
@@ -358,7 +451,7 @@ func FuncValueUses(anon *ssa.Function) []ssa.Instruction {
 		return nil
 	}
 	var out []ssa.Instruction
-	Instrs(parent, func(in ssa.Instruction) {
+	InstrsOwn(parent, func(in ssa.Instruction) {
 		for _, op := range in.Operands(nil) {
 			if *op == nil {
 				continue
